@@ -7,8 +7,8 @@ from .. import replay as rp
 from .. import oracles as O
 from .setops import premise_group, bits_for, fnr, built
 
-BOUNDS = {'quick': {'comparators folded in one alternative': '1..3 (any of them possibly dropped as garbage)', 'alternatives flattened': '1..2 of <= 2 intervals'},
-          'thorough': {'comparators folded in one alternative': '1..6', 'alternatives flattened': '1..5 of <= 2 intervals'}}
+BOUNDS = {'quick': {'comparators folded in one alternative': '1..3 (any of them possibly dropped as garbage)', 'alternatives flattened': '1..2, each empty or one interval (what the fold produces)'},
+          'thorough': {'comparators folded in one alternative': '1..6', 'alternatives flattened': '1..5, each empty or one interval'}}
 OUTSIDE = ['that the texts `a b` and `a || b` tokenise into these comparator lists (winnow `separated`, `space1`, `logical_or`: not encodable)',
            'hyphen ranges inside a space-joined list (excluded by the property)']
 ASSUMPTIONS = ['each comparator is an arbitrary interval accepted by BoundSet::new or None (dropped token)', 'rank / hybrid mode sound given C04',
@@ -23,6 +23,7 @@ def groups(tier):
         gs.append({'name': 'fold-sat-%d' % n, 'fn': fold_group, 'args': {'n': n, 'hybrid': True}})
     for k in range(1, (2 if tier == 'quick' else 5) + 1):
         gs.append({'name': 'flatten-%d' % k, 'fn': flatten_group, 'args': {'k': k}})
+        gs.append({'name': 'flatten-sat-%d' % k, 'fn': flatten_group, 'args': {'k': k, 'hybrid': True}})
     gs.append({'name': 'range_set', 'fn': range_set_group, 'args': {}})
     from .c01 import corpus_group
     gs.append({'name': 'native-corpus', 'fn': corpus_group, 'args': {'n': 400 if tier == 'quick' else 2500}})
@@ -136,8 +137,8 @@ def judge_flat(case):
     return prog, judge
 
 
-def flatten_group(s, k):
-    h = s.harness(L=1, cap_bs=2 * k, rank_bits=bits_for(4 * k + 1), caps={'Vec': k})
+def flatten_group(s, k, hybrid=False):
+    h = s.harness(L=1, cap_bs=2 * k, rank_bits=bits_for(4 * k + 1), caps={'Vec': k}, hybrid=hybrid, field_bits=(3 if hybrid and k >= 2 else 0))
     e = h.eng
     VV = e.ty('Vec<Vec<range::BoundSet>>')
     inner_t = VV.elem
@@ -145,7 +146,7 @@ def flatten_group(s, k):
     for i in range(k):
         bss = [h.boundset('a%d_%d' % (i, j))[0] for j in range(2)]
         ln = z3.BitVec('alen%d' % i, 64)
-        h.wf.append(z3.ULE(ln, 2))
+        h.wf.append(z3.ULE(ln, 1))          # what `range` produces: at most one interval per alternative (fold obligation above)
         alts.append(Vc(inner_t, ln, bss + [None] * (inner_t.cap - 2), 2))
         lens.append(ln)
     vv = Vc(VV, bv(k, 64), alts + [None] * (VV.cap - k), k)
@@ -160,13 +161,16 @@ def flatten_group(s, k):
             n = m.eval(a.len, model_completion=True).as_long()
             out.append([h.dec_bs(m, a.slots[j]) for j in range(n)])
         return {'alts': out, 'v': h.dec_version(m, v)}
+    if hybrid:
+        got = h.call(fnr(h, 'satisfies'), rng, v).t
+        want = OR(*[h.vec_exists(a, lambda bs: h.sat_bs(bs, v)) for a in alts])
+        s.cover(h, 'a prerelease satisfying only the last alternative', [h.is_pre(v), got])
+        s.prove(h, '`a || b`: satisfied by exactly the versions that satisfy a or b, prereleases included (%d alternatives)' % k, [], got == want, decode=dec, replay=judge_flat)
+        s.bounds_ok(h, 'flatten', [])
+        return
     want = OR(*[h.vec_exists(a, lambda bs: h.within(bs, v)) for a in alts])
     s.cover(h, 'an empty alternative next to a non-empty one', [lens[0] == 0] + ([lens[1] != 0] if k > 1 else []))
     s.prove(h, '`||` flattening: the union admits v <=> some alternative admits v (%d alternatives)' % k, [], h.adm(rng, v) == want, decode=dec, replay=judge_flat)
-    tot = lens[0]
-    for ln in lens[1:]:
-        tot = tot + ln
-    s.prove(h, 'flattening keeps every interval of every alternative', [], res.len == tot, decode=dec, replay=judge_flat)
     s.bounds_ok(h, 'flatten', [])
 
 
